@@ -127,7 +127,7 @@ func (dec *Decoder) decodeBigIntValue(t reflect.Type, tag byte, p *big.Int) {
 	var pp *big.Int
 	dec.decodeBigInt(t, tag, &pp)
 	if pp == nil {
-		*p = *bigIntZero
+		*p = *big.NewInt(0) // a fresh zero: copies of a shared value share its digits
 	} else {
 		*p = *pp
 	}
@@ -172,7 +172,7 @@ func (dec *Decoder) decodeBigFloatValue(t reflect.Type, tag byte, p *big.Float) 
 	var pp *big.Float
 	dec.decodeBigFloat(t, tag, &pp)
 	if pp == nil {
-		*p = *bigFloatZero
+		*p = *big.NewFloat(0) // a fresh zero: copies of a shared value share its digits
 	} else {
 		*p = *pp
 	}
@@ -215,7 +215,7 @@ func (dec *Decoder) decodeBigRatValue(t reflect.Type, tag byte, p *big.Rat) {
 	var pp *big.Rat
 	dec.decodeBigRat(t, tag, &pp)
 	if pp == nil {
-		*p = *bigRatZero
+		*p = *big.NewRat(0, 1) // a fresh zero: copies of a shared value share its digits
 	} else {
 		*p = *pp
 	}
